@@ -251,7 +251,7 @@ def run_case(case, ctx, st):
                 ctx.count("reconfigure_raised:" + type(e).__name__)
     fitted = False
     L = int(rng.integers(0, 7))
-    menu = ["fit_other", "fit_same", "fit_predict", "query", "set_params", "clone", "crash_fit"]
+    menu = ["fit_other", "fit_same", "fit_predict", "query", "set_params", "clone", "crash_fit", "sibling"]
     if name in gen.SPARSE and d >= 2:
         menu += ["path", "crash_path", "path"]
     for _ in range(L):
@@ -313,6 +313,29 @@ def run_case(case, ctx, st):
                     fitted = exc is None
                     fitted_on = (X2, y2)
             est.set_params(**{key: old})
+        elif op == "sibling":
+            # another object of the same class, configured differently, fitted on the very same arrays in between (what a
+            # grid search does): nothing it leaves behind at class or module level may reach this object's next fit
+            try:
+                sib = clone(est)
+                cur = sib.get_params()
+                swaps = {"kernel": lambda v: ("rbf" if v != "rbf" else "linear") if isinstance(v, str) and v != "precomputed" else v,
+                         "base_kernel": lambda v: "rbf" if v != "rbf" else "linear",
+                         "metric": lambda v: ("manhattan" if v != "manhattan" else "euclidean") if v != "precomputed" else v,
+                         "gemini": lambda v: ("tv_ova" if v != "tv_ova" else "mmd_ovo") if (isinstance(v, str) or v is None) and not pre else v,
+                         "n_clusters": lambda v: v + 1, "max_clusters": lambda v: v + 1, "ovo": lambda v: not v,
+                         "learning_rate": lambda v: v * 2, "n_hidden_dim": lambda v: v + 1, "n_cuts": lambda v: v + 1}
+                ks = [k for k in swaps if k in cur]
+                for k in [ks[int(j)] for j in rng.choice(len(ks), size=min(2, len(ks)), replace=False)]:
+                    sib.set_params(**{k: swaps[k](cur[k])})
+                sib.set_params(random_state=int(rng.integers(0, 10 ** 5)))
+                with warnings.catch_warnings():
+                    warnings.simplefilter("ignore")
+                    sib.fit(Xref, yref)
+                    sib.score(Xref, yref)
+                ctx.count("sibling_fits")
+            except Exception:
+                ctx.count("sibling_raised")
         elif op == "clone":
             try:
                 c = clone(est)
